@@ -270,6 +270,81 @@ fn c02_check(c: &SemCase, st: &mut Stats) -> CheckResult {
     Ok(Outcome::Ok)
 }
 
+
+/// ADFs in which 41..130 statements stay undecided in the grounded interpretation: 3^k does not fit a machine word, the
+/// enumeration is lazy, so the first models must be right: grounded first, every listed interpretation a fixpoint of the
+/// consequence operator (checked by local three-valued evaluation), no repetition.
+#[derive(Clone, Debug, Serialize, Deserialize, Hash)]
+pub struct LazyComplete {
+    pub n: u8,
+    pub spec: Vec<(u8, u8)>,
+    pub sort: Sort,
+}
+
+fn c02_lazy(c: &LazyComplete, st: &mut Stats) -> CheckResult {
+    let n = c.n as usize;
+    let acs: Vec<F> = (0..n)
+        .map(|i| {
+            let (kind, d) = c.spec[i % c.spec.len()];
+            let j = (i + 1 + d as usize) % n;
+            match kind % 8 {
+                0 | 1 | 2 | 3 => F::Atom(i),
+                4 => F::or(F::Atom(i), F::and(F::Atom(j), F::not(F::Atom(j)))),
+                5 => F::and(F::Atom(i), F::or(F::Atom(j), F::not(F::Atom(j)))),
+                6 => if i % 2 == 0 { F::Top } else { F::Bot },
+                _ => F::and(F::Atom(i), F::Atom(j)),
+            }
+        })
+        .collect();
+    let adf = gen::AdfCase::simple(acs.clone());
+    let text = adf.text();
+    let (grd, _) = oracle::grounded_local(&acs);
+    let k = grd.iter().filter(|t| !t.decided()).count();
+    const TAKE: usize = 10;
+    let res = sut::with_parser_opt(&text, c.sort, false, |p| -> Result<(), String> {
+        let names = parser_names(p);
+        let perm = sut::perm_from_names(&names, &adf.labels)?;
+        let mut answers: Vec<(&str, Vec<Vec<Term>>)> = Vec::new();
+        for (nm, b) in [("native", Backend::Native), ("hybrid(pre-grounded)", Backend::HybridPre), ("hybrid(no pre-grounding)", Backend::HybridNoPre), ("from_biodivine", Backend::FromBio)] {
+            let mut a = build_native_like(p, b);
+            answers.push((nm, a.complete().take(TAKE).collect()));
+        }
+        answers.push(("biodivine", BdAdf::from_parser(p).complete().take(TAKE).collect()));
+        for (nm, got) in &answers {
+            if got.is_empty() {
+                return Err(format!("{nm}.complete() lists nothing ({k} of {n} statements undecided in the grounded interpretation)"));
+            }
+            let mut seen = std::collections::HashSet::new();
+            for (idx, g) in got.iter().enumerate() {
+                let v = sut::to_logical(&perm, &sut::abs(g)).map_err(|e| format!("{nm}: {e}"))?;
+                if idx == 0 && v != grd {
+                    return Err(format!("{nm}.complete(): first model {} is not the grounded interpretation {} ({k} undecided statements)", show(&v), show(&grd)));
+                }
+                for s in 0..n {
+                    let want = oracle::eval3(&acs[s], &v);
+                    if want != v[s] {
+                        return Err(format!("{nm}.complete(): model no. {idx} {} is not complete: statement {s} is {:?} but its condition evaluates to {:?} ({k} undecided statements)", show(&v), v[s], want));
+                    }
+                }
+                if !seen.insert(v) {
+                    return Err(format!("{nm}.complete(): model no. {idx} was listed before ({k} undecided statements)"));
+                }
+            }
+        }
+        Ok(())
+    });
+    match res {
+        Err(e) => return Err(format!("well-formed input rejected: {e}")),
+        Ok(Err(e)) => return Err(e),
+        Ok(Ok(())) => {}
+    }
+    st.label(if k >= 64 { "undecided>=64" } else if k >= 41 { "undecided 41..63" } else { "undecided<41" });
+    if k >= 41 {
+        st.nontrivial(stable_hash(c), || json!({"statements": n, "undecided_in_grounded": k}));
+    }
+    Ok(Outcome::Ok)
+}
+
 pub fn c02(tier: Tier) -> PropSpec {
     let hi = tier.pick(6, 7);
     PropSpec {
@@ -277,7 +352,7 @@ pub fn c02(tier: Tier) -> PropSpec {
         level: "exploration",
         rule: "generated ADFs (as C01, n<=6 quick / 7 thorough) -> complete() on native, biodivine, hybrid(+/-pre), \
                from_biodivine compared as multisets with {v in {T,F,u}^n : Gamma(v)=v} enumerated over all 3^n \
-               interpretations; first element must be the grounded interpretation. Non-trivial: >= 2 complete models \
+               interpretations; first element must be the grounded interpretation. Part lazy-wide: 10..135 statements of which most stay undecided (3^k beyond a machine word): the first 10 listed models on every back-end are the grounded one first, fixpoints by local three-valued evaluation, pairwise different. Non-trivial: >= 2 complete models \
                and grounded not total.",
         assumptions: vec!["oracle.rs enumerates all 3^n interpretations and applies the definition of the consequence operator on truth tables"],
         exhaustive: false,
@@ -286,6 +361,16 @@ pub fn c02(tier: Tier) -> PropSpec {
             tier.pick(30000, 400000),
             move || sem_case(1, hi),
             c02_check,
+        ),
+        Part::new(
+            "lazy-wide",
+            tier.pick(400, 4000),
+            || {
+                (prop_oneof![2 => 41u8..70, 1 => 120u8..135, 1 => 10u8..41], proptest::collection::vec((any::<u8>(), 0u8..5), 8..24), sort_strategy())
+                    .prop_map(|(n, spec, sort)| LazyComplete { n, spec, sort })
+                    .boxed()
+            },
+            c02_lazy,
         ),
         Box::new(Logged(Part::new("small-with-logging", tier.pick(1500, 15000), || sem_case(1, 5), c02_check))),
         crate::props::cli::sem_cli_part("cli-com", &[crate::props::cli::Flag::Com, crate::props::cli::Flag::Grd], tier.pick(150, 1500))],
